@@ -217,7 +217,8 @@ def generate(prop, rng, tier):
             mk = geoms.get(g, sorted(meshes)[0])
             vd = rng.choice(VAR_DEFS)
             op = {"op": "add_variable", "state": rng.choice(states), "geom": g, "mesh": mk,
-                  "var": vd[0], "source": vd[1], "columns": vd[3], "location": vd[4], "drop_columns": False}
+                  "var": vd[0], "source": vd[1], "columns": vd[3], "location": vd[4], "drop_columns": False,
+                  "block_perm": rng.randint(1, 10 ** 6) if rng.random() < 0.35 else None}
             rr = rng.random()
             if rr < 0.05:
                 op["location"] = "bad"            # wrong location type -> must raise
@@ -292,6 +293,12 @@ def call_real(exp, op, meshes):
             f(op["geom"], ids, mesh_frame(mesh), op["name"])
         elif kind == "add_variable":
             df = mesh_frame(mesh)
+            if op.get("block_perm"):
+                # the same mesh as another valid frame: element blocks in another row order
+                import random as _r
+                eids = list(dict.fromkeys(int(e) for e in df.index.get_level_values("element_id")))
+                _r.Random(int(op["block_perm"])).shuffle(eids)
+                df = pd.concat([df.xs(e, level="element_id", drop_level=False) for e in eids])
             src_cols = SRC_COLUMNS[op["source"]]
             cols = op["columns"]
             if cols is not None and cols != src_cols:
@@ -498,6 +505,32 @@ def _verify_geometry(imp, raw, g, mesh, model, out, log, step):
                                                                   "file": _frame_rows(f)[:40], "model": want_rows[:40]})
                     return False
                 out.count("probe:set_filtered")
+                # filtered mesh with coordinates and a variable joined afterwards
+                vs = sorted(k for k in model.vars if k[1] == g)
+                if vs and want_rows:
+                    st_, _, vn = vs[0]
+                    spec = model.vars[vs[0]]
+                    try:
+                        fj = getattr(imp.make_mesh(g, st_), flt)(nm).join_coordinates().join_variable(vn, column_names=spec["columns"]).to_frame()
+                    except Exception as e:   # noqa
+                        out.violate("V4-filter-exact", "filter-then-join", {"step": step, "geometry": g, "set": nm, "variable": list(vs[0]),
+                                                                            "type": type(e).__name__, "msg": str(e)[:200]})
+                        return False
+                    wantv = model.expected_variable(*vs[0])
+                    gotv = fj[spec["columns"]].to_numpy()
+                    okj = _frame_rows(fj) == want_rows
+                    if okj:
+                        for rr, key in enumerate(want_rows):
+                            if [float(x) for x in gotv[rr]] != [float(x) for x in (wantv[key] or [])]:
+                                okj = False
+                                break
+                        for ci, c in enumerate(cols):
+                            if [float(x) for x in fj[c].to_numpy()] != [mesh["coords"][str(n)][ci] for _, n in want_rows]:
+                                okj = False
+                    if not okj:
+                        out.violate("V4-filter-exact", "filter-then-join", {"step": step, "geometry": g, "set": nm, "variable": list(vs[0])})
+                        return False
+                    out.count("probe:filter_then_join")
     return True
 
 
@@ -824,4 +857,4 @@ def describe(prop):
                             "dtypes are not compared; element type ids stored in the file are not part of the round trip through the public importer",
                             "calls the model considers invalid but the exporter accepts end the run without alarm (C20 does not say which calls must raise)"],
             "required_probes": ["fault:before:create_group", "fault:before:create_dataset", "fault:before:attr_create", "fault:after:create_group",
-                                "fault:after:create_dataset", "fault:after:attr_create", "probe:retry_after_fault_succeeded", "probe:variable_read_back", "probe:set_filtered"]}
+                                "fault:after:create_dataset", "fault:after:attr_create", "probe:retry_after_fault_succeeded", "probe:variable_read_back", "probe:set_filtered", "probe:filter_then_join"]}
